@@ -68,6 +68,7 @@ def build(tier, seed):
         from contracts import links
         return links.href_obligations(PROP, lambda: c16.search(("end_to_end",)))
     tasks = [a_task(PROP, _binding), a_task(PROP, _rebase), a_task(PROP, _one), a_task(PROP, _fil), a_task(PROP, _host), s_task(),
+             Task(f"{PROP}.S.filter_public", PROP, "FortranCodeUnit.correlate", lambda: __import__("contracts.useassoc", fromlist=["x"]).filter_public_obligation(PROP, lambda: c16.search(("end_to_end",)))),
              Task(f"{PROP}.S.href", PROP, "FordLinkProcessor.convert_link", _href),
              Task(f"{PROP}.S.dict2obj", PROP, "dict2obj", lambda: external.dict2obj_constructs(PROP, lambda: c16.search(("same_names",)))),
              bd_task("end_to_end", "A exported, B built against it through a relative local path: modules.json lists exactly A's modules and public entities with URLs that exist; every "
